@@ -185,4 +185,68 @@ vpv_cell!(#[kani::stub(eval_filter_expr, stub_eval_filter_expr)] #[kani::stub(co
 vpv_cell!(#[kani::stub(eval_filter_expr, stub_eval_filter_expr)] #[kani::stub(collect_emitted_event, stub_collect_emitted_event)] #[kani::stub(call_user_function, stub_call_user_function)] #[kani::unwind(6)] c10_evlit_float, "C10/eval-literal/Float", (a: f64), { let v = ev(&Expr::Float(a)); let ok = match &v { Some(Value::Float(x)) => x.to_bits() == a.to_bits(), _ => false }; std::mem::forget(v); ok });
 vpv_cell!(#[kani::stub(eval_filter_expr, stub_eval_filter_expr)] #[kani::stub(collect_emitted_event, stub_collect_emitted_event)] #[kani::stub(call_user_function, stub_call_user_function)] #[kani::unwind(6)] c10_evlit_bool, "C10/eval-literal/Bool", (a: bool), { let v = ev(&Expr::Bool(a)); let ok = match &v { Some(Value::Bool(x)) => *x == a, _ => false }; std::mem::forget(v); ok });
 vpv_cell!(#[kani::stub(eval_filter_expr, stub_eval_filter_expr)] #[kani::stub(collect_emitted_event, stub_collect_emitted_event)] #[kani::stub(call_user_function, stub_call_user_function)] #[kani::unwind(6)] c10_evlit_null, "C10/eval-literal/Null", (), { let v = ev(&Expr::Null); let ok = matches!(&v, Some(Value::Null)); std::mem::forget(v); ok });
-vpv_replay_table!(c10_lit_add_int_int, c10_lit_sub_int_int, c10_lit_mul_int_int, c10_lit_div_int_int, c10_lit_mod_int_int, c10_lit_add_float_float, c10_lit_sub_float_float, c10_lit_mul_float_float, c10_lit_div_float_float, c10_lit_mod_float_float, c10_lit_pow_float_float, c10_lit_add_int_float, c10_lit_add_float_int, c10_lit_sub_int_float, c10_lit_sub_float_int, c10_lit_mul_int_float, c10_lit_mul_float_int, c10_lit_div_int_float, c10_lit_div_float_int, c10_id_mul_zero_r_float, c10_id_mul_zero_r_str, c10_id_mul_zero_r_bool, c10_id_mul_zero_r_null, c10_id_mul_zero_l_float, c10_id_mul_zero_l_str, c10_id_mul_zero_l_bool, c10_id_mul_zero_l_null, c10_id_mul_one_r_float, c10_id_mul_one_r_str, c10_id_mul_one_r_bool, c10_id_mul_one_r_null, c10_id_mul_one_l_float, c10_id_mul_one_l_str, c10_id_mul_one_l_bool, c10_id_mul_one_l_null, c10_id_add_zero_r_float, c10_id_add_zero_r_str, c10_id_add_zero_r_bool, c10_id_add_zero_r_null, c10_id_add_zero_l_float, c10_id_add_zero_l_str, c10_id_add_zero_l_bool, c10_id_add_zero_l_null, c10_id_sub_zero_r_float, c10_id_sub_zero_r_str, c10_id_sub_zero_r_bool, c10_id_sub_zero_r_null, c10_id_div_one_r_float, c10_id_div_one_r_str, c10_id_div_one_r_bool, c10_id_div_one_r_null, c10_passthrough_lt, c10_passthrough_eq, c10_passthrough_and, c10_neg_int, c10_neg_float, c10_not_bool, c10_evlit_int, c10_evlit_float, c10_evlit_bool, c10_evlit_null);
+
+// ---- whole expressions through fold_expr: BOUNDED STAND-IN (native enumeration).  The Kani cells above cover one rewrite arm at a time on literal operands;
+// rewrites that depend on the SHAPE of nested operands, or on the run-time type of a field, are out of their reach (a tree whose shape is symbolic cannot
+// be evaluated by CBMC, and fields need hash-map lookups).  Natively: every expression tree of depth <= 3 (one operand a leaf at the top level) over 10
+// operators and 17 leaves — int / float / string / bool / null literals and the fields x (float 0.3), big (float 1e16), i (int 7), top (int i64::MAX),
+// s (string), m (missing) — is folded by the REAL fold_expr and both versions are evaluated by the REAL evaluator on an event carrying those fields:
+// same value, or the same absence of a value.  Trees containing one of the eight identity patterns with a non-literal-int operand (x*0, x*1, x+0, x-0,
+// x/1 and mirrors) are skipped: those are the known findings of the identity cells above.
+#[cfg(vpv_replay)]
+pub fn c10_ev_with_fields(e: &Expr) -> Option<Value> {
+    let evt = Event::new_at("E", chrono::DateTime::<chrono::Utc>::UNIX_EPOCH).with_field("x", Value::Float(0.3)).with_field("big", Value::Float(1e16))
+        .with_field("i", Value::Int(7)).with_field("top", Value::Int(i64::MAX)).with_field("s", Value::Str("ab".into()));
+    let ctx = SequenceContext::default();
+    let fns: FxHashMap<String, UserFunction> = FxHashMap::default();
+    let binds: FxHashMap<String, Value> = FxHashMap::default();
+    eval_expr_with_functions(e, &evt, &ctx, &fns, &binds)
+}
+#[cfg(vpv_replay)]
+pub fn c10_has_identity_pattern(e: &Expr) -> bool {
+    match e {
+        Expr::Binary { op, left, right } => {
+            let lit = |x: &Expr, v: i64| matches!(x, Expr::Int(k) if *k == v);
+            let is_int_lit = |x: &Expr| matches!(x, Expr::Int(_));
+            let here = match op {
+                BinOp::Mul => (lit(right, 0) || lit(right, 1)) && !is_int_lit(left) || (lit(left, 0) || lit(left, 1)) && !is_int_lit(right),
+                BinOp::Add => lit(right, 0) && !is_int_lit(left) || lit(left, 0) && !is_int_lit(right),
+                BinOp::Sub => lit(right, 0) && !is_int_lit(left),
+                BinOp::Div => lit(right, 1) && !is_int_lit(left),
+                _ => false,
+            };
+            here || c10_has_identity_pattern(left) || c10_has_identity_pattern(right)
+        }
+        Expr::Unary { expr, .. } => c10_has_identity_pattern(expr),
+        _ => false,
+    }
+}
+vpv_native!(c10_fold_expr_trees, "C10/fold_expr/folded and unfolded expression trees of depth <= 3 evaluate to the same value or the same absence of a value, on an event with float, int, string and missing fields (native enumeration: 10 operators x 17 leaves)", {
+    let leaves: Vec<Expr> = vec![Expr::Int(0), Expr::Int(1), Expr::Int(2), Expr::Int(-1), Expr::Int(5), Expr::Int(i64::MAX), Expr::Int(i64::MIN), Expr::Float(0.0), Expr::Float(1.5), Expr::Float(0.1),
+        Expr::Str(String::from("a")), Expr::Bool(true), Expr::Null, Expr::Ident(String::from("x")), Expr::Ident(String::from("big")), Expr::Ident(String::from("i")), Expr::Ident(String::from("top")),
+        Expr::Ident(String::from("s")), Expr::Ident(String::from("m"))];
+    let ops = [BinOp::Add, BinOp::Sub, BinOp::Mul, BinOp::Div, BinOp::Mod, BinOp::Lt, BinOp::Ge, BinOp::Eq, BinOp::And, BinOp::Or];
+    let mut level2: Vec<Expr> = Vec::new();
+    for op in ops { for l in &leaves { for r in &leaves { level2.push(bin(op, l.clone(), r.clone())); } } }
+    for l in &leaves { level2.push(Expr::Unary { op: UnaryOp::Neg, expr: Box::new(l.clone()) }); }
+    let mut ok = true; let mut shown = 0; let mut n = 0u64; let mut skipped = 0u64;
+    let mut check = |e: Expr, n: &mut u64, skipped: &mut u64| -> bool {
+        if c10_has_identity_pattern(&e) { *skipped += 1; return true; }
+        *n += 1;
+        vpv_enum_try(|| format!("{:?}", e), || {
+            let folded = __vpv_fold_expr(e.clone());
+            let (a, b) = (c10_ev_with_fields(&e), c10_ev_with_fields(&folded));
+            let same_v = match (&a, &b) { (None, None) => true, (Some(x), Some(y)) => x == y, _ => false };
+            if !same_v { println!("  unfolded evaluates to {:?}, folded ({:?}) to {:?}", a, folded, b); }
+            same_v
+        })
+    };
+    for e in &level2 { if !check(e.clone(), &mut n, &mut skipped) { ok = false; shown += 1; if shown >= 4 { return false; } } }
+    for op in ops { for inner in &level2 { for l in &leaves {
+        if !check(bin(op, inner.clone(), l.clone()), &mut n, &mut skipped) { ok = false; shown += 1; if shown >= 4 { return false; } }
+        if !check(bin(op, l.clone(), inner.clone()), &mut n, &mut skipped) { ok = false; shown += 1; if shown >= 4 { return false; } }
+    } } }
+    println!("  {} trees compared, {} skipped (identity patterns = known findings)", n, skipped);
+    ok
+});
+vpv_replay_table!(c10_lit_add_int_int, c10_lit_sub_int_int, c10_lit_mul_int_int, c10_lit_div_int_int, c10_lit_mod_int_int, c10_lit_add_float_float, c10_lit_sub_float_float, c10_lit_mul_float_float, c10_lit_div_float_float, c10_lit_mod_float_float, c10_lit_pow_float_float, c10_lit_add_int_float, c10_lit_add_float_int, c10_lit_sub_int_float, c10_lit_sub_float_int, c10_lit_mul_int_float, c10_lit_mul_float_int, c10_lit_div_int_float, c10_lit_div_float_int, c10_id_mul_zero_r_float, c10_id_mul_zero_r_str, c10_id_mul_zero_r_bool, c10_id_mul_zero_r_null, c10_id_mul_zero_l_float, c10_id_mul_zero_l_str, c10_id_mul_zero_l_bool, c10_id_mul_zero_l_null, c10_id_mul_one_r_float, c10_id_mul_one_r_str, c10_id_mul_one_r_bool, c10_id_mul_one_r_null, c10_id_mul_one_l_float, c10_id_mul_one_l_str, c10_id_mul_one_l_bool, c10_id_mul_one_l_null, c10_id_add_zero_r_float, c10_id_add_zero_r_str, c10_id_add_zero_r_bool, c10_id_add_zero_r_null, c10_id_add_zero_l_float, c10_id_add_zero_l_str, c10_id_add_zero_l_bool, c10_id_add_zero_l_null, c10_id_sub_zero_r_float, c10_id_sub_zero_r_str, c10_id_sub_zero_r_bool, c10_id_sub_zero_r_null, c10_id_div_one_r_float, c10_id_div_one_r_str, c10_id_div_one_r_bool, c10_id_div_one_r_null, c10_passthrough_lt, c10_passthrough_eq, c10_passthrough_and, c10_neg_int, c10_neg_float, c10_not_bool, c10_evlit_int, c10_evlit_float, c10_evlit_bool, c10_evlit_null, c10_fold_expr_trees);
